@@ -474,7 +474,7 @@ def run(ck):
                 replay={"rule": w["rule"], "witness": w, "lhs_rows": l["rows"], "rhs_rows": rr["rows"], "requests": [wreqs[[q["id"] for q in wreqs].index(wid)]]})
 
     # (C) whole optimizer: on vs off vs custom(exclude known-unsound rules)
-    nq = 40 if ck.quick() else 2500
+    nq = 120 if ck.quick() else 2500
     rng = random.Random(ck.seed * 7919 + 17)
     cases = c01_gen.gen_cases(rng, nq)
     # corpus first
